@@ -78,11 +78,27 @@ class Cache:
         of things that are convertable to strings.
         """
         if isinstance(arg, np.ndarray):
-            self.ahash.update(arg.view(np.uint8))
+            # The data type and the shape are part of the key: arrays
+            # with identical bytes but different dtype or shape differ.
+            data = np.ascontiguousarray(arg).reshape(-1).view(np.uint8)
+            self._update_hash_framed(
+                f"ndarray {arg.dtype.str} {arg.shape}", data)
         elif isinstance(arg, list):
+            self._update_hash_framed("list", str(len(arg)).encode('utf-8'))
             [self._update_hash(a) for a in arg]
         else:
-            self.ahash.update(str(arg).encode('utf-8'))
+            self._update_hash_framed(type(arg).__name__,
+                                     str(arg).encode('utf-8'))
+
+    def _update_hash_framed(self, kind, payload):
+        """Update the hash with a header and the payload
+
+        The header contains the kind of the argument and the size
+        of the payload, so that the concatenation of several
+        arguments is unambiguous.
+        """
+        self.ahash.update(f"{kind} {len(payload)}:".encode('utf-8'))
+        self.ahash.update(payload)
 
     @staticmethod
     def clear_cache():
